@@ -39,7 +39,19 @@ fn check_ratio_one(rep: &mut Report, d: usize, len: usize, seed: u64) -> bool {
     let r = vmon::catch(|| {
         // zeroed ring handed over at a rotation derived from the case
         let sinc = Sinc::new(Fixed::from_raw_parts((seed as usize + len) % (2 * d), vec![0.0f64; 2 * d]));
-        let conv = signal::from_iter(src.iter().cloned()).scale_hz(sinc, 1.0);
+        // ratio exactly 1 through three routes: scale_hz(1.0), from_hz_to_hz(r, r) for rates r
+        // derived from the case (49, 11 000, 22 000, 44 100, odd ones), and the setter
+        let rates = [49.0f64, 11_000.0, 22_000.0, 44_100.0, 7.0, 12_345.0, 0.3, 96_000.0];
+        let r = rates[(seed as usize + d) % rates.len()];
+        let conv = match (seed + d as u64) % 3 {
+            0 => signal::from_iter(src.iter().cloned()).scale_hz(sinc, 1.0),
+            1 => signal::from_iter(src.iter().cloned()).from_hz_to_hz(sinc, r, r),
+            _ => {
+                let mut c = signal::from_iter(src.iter().cloned()).scale_hz(sinc, 1.0);
+                c.set_hz_to_hz(r, r);
+                c
+            }
+        };
         conv.take(len).collect::<Vec<f64>>()
     });
     let out = match r {
